@@ -511,13 +511,15 @@ class Assembler(CbMixin):
         dest: str
             path to the directory where rebuild will take place.
         """
-        Metadata.set_callback(self._callback)
         self.counter = 0
         self._lastlog = None
         self.contents = contents
         self.dest = dest
         self.meta_paths = metafiles
         self.metafiles = self._get_metafiles()
+        # each assembler counts the files of its own metafiles only
+        for meta in self.metafiles:
+            meta.cb = self._callback
         filenames = set()
         for meta in self.metafiles:
             filenames |= meta.filenames
